@@ -36,6 +36,17 @@ class BoundedResult:
             self.failures.append(None)
 
 
+    def guard(self, key, thunk, sample=None, nontrivial=True):
+        """Evaluate one case; thunk() returns (ok, detail).  An exception raised by the code under
+        test inside the case is a failure of that case (with the traceback tail as detail)."""
+        try:
+            ok, detail = thunk()
+        except Exception as e:
+            ok, detail = False, {"exception": f"{type(e).__name__}: {e}",
+                                 "where": traceback.format_exc(limit=3).strip().splitlines()[-3:]}
+        self.case(key, ok, detail, nontrivial=nontrivial, sample=sample)
+
+
 class GroundResult:
     """P-ground: complete evaluation of a closed obligation over finite constant tables."""
 
@@ -269,13 +280,12 @@ def finish(ctx, lock_mode=False):
     rules = []
     for b in ctx.bounded_results:
         if b.error:
-            undecided.append((b.name, "-", "bounded check not runnable: " + b.error.strip().splitlines()[-1]))
-            continue
+            undecided.append((b.name, "-", "bounded check stopped: " + b.error.strip().splitlines()[-1]))
         evaluations += b.evaluations
         nontrivial += len(b.nontrivial)
         bsamples.extend(b.samples[:2])
         rules.append(f"{b.name}: {b.rule}" + (" [exhaustive]" if b.exhaustive else ""))
-        if b.evaluations == 0:
+        if b.evaluations == 0 and not b.error:
             checker_errors.append(f"{b.name}: bounded check evaluated nothing")
         for f in b.failures[:10]:
             if f is not None:
